@@ -230,9 +230,6 @@ class SimTransport(transports.Transport):
     def _low_water(self):
         return self.window // 4 if self._low is None else self._low
 
-    def set_write_buffer_limits(self, high=None, low=None):
-        pass
-
     def _in_flight(self):
         p = self.peer
         if p is None:
